@@ -1362,10 +1362,32 @@ func c05WaitGroups(c *core.Ctx, p *core.Prog, fns []*ssa.Function) {
 		// the releasing function: root of the functions that call Done
 		var rel *ssa.Function
 		doneFns := map[*ssa.Function]bool{}
+		stepOf := map[*ssa.Function]*ssa.Function{} // a top-level function that calls Done, all of whose callers sit in one function
 		multi := false
 		for _, d := range g.dones {
 			doneFns[d.fn] = true
 			r := rootOf(d.fn)
+			// what used to be a function literal of the releasing function may have become a method of the stream
+			// ("closure to method"): if every call of it sits in one and the same function, that one releases
+			if r == d.fn {
+				var callerRoot *ssa.Function
+				same := true
+				for _, cf := range fns {
+					core.Instrs(cf, func(in ssa.Instruction) {
+						if cc := core.CallOf(in); cc != nil && cc.StaticCallee() == d.fn {
+							cr := rootOf(cf)
+							if callerRoot != nil && callerRoot != cr {
+								same = false
+							}
+							callerRoot = cr
+						}
+					})
+				}
+				if callerRoot != nil && same && callerRoot != d.fn {
+					stepOf[d.fn] = callerRoot
+					r = callerRoot
+				}
+			}
 			if rel != nil && rel != r {
 				multi = true
 			}
@@ -1392,11 +1414,21 @@ func c05WaitGroups(c *core.Ctx, p *core.Prog, fns []*ssa.Function) {
 					}
 				}
 			}
+			if sc := call.Call.StaticCallee(); sc != nil && stepOf[sc] != nil {
+				return true
+			}
 			return false
 		}
 		bad := ""
 		for f := range doneFns {
 			if f == rel {
+				continue
+			}
+			if stepOf[f] == rel {
+				mn, mx, ok := core.CountRange(core.Entry(f), isDone, nil)
+				if !ok || mn != 1 || mx != 1 {
+					bad = fmt.Sprintf("%s calls Done between %d and %d times, want exactly once", core.FuncName(f), mn, mx)
+				}
 				continue
 			}
 			if f.Parent() != rel {
